@@ -84,7 +84,7 @@ func runC11(r *vfw.Run) {
 		}
 		return seamrt.GoNever
 	}
-	o := scen.Opts{MinIdent: 3, MaxIdent: 16, CeremonySoon: r.Choose("c11.ceremony", 2) == 0}
+	o := scen.Opts{MinIdent: 3, MaxIdent: 16, CeremonySoon: r.Choose("c11.ceremony", 2) == 0, SmallShards: true}
 	// some runs over a large state: the snapshot archive then has several blocks (the archive is written in blocks of
 	// 10000 tree nodes, and the importer flushes to the database every 10000 nodes)
 	bigEvery := 8
